@@ -71,16 +71,36 @@ def element_functions(tu):
     return out
 
 
-def strcmp_literals(tu, f, var):
-    """string literals a variable is compared with inside f"""
+def strcmp_literals(tu, f, var, depth=2):
+    """string literals a variable is compared with inside f (directly, against the rows of a constant table, or inside a helper of
+    the same file that receives the variable)"""
     out = set()
-    for c in C.calls(tu.body(f), ('strcmp', 'g_str_equal', 'g_strcmp0', 'g_ascii_strcasecmp')):
+
+    def table_strings(y):
+        # strcmp (x, table[i].name): every string literal in the initialiser of that file-scope table
+        for d in C.walk(y):
+            if d.get('kind') == 'DeclRefExpr':
+                nm = d.get('referencedDecl', {}).get('name')
+                v = tu.vars.get(nm)
+                if v is not None:
+                    return [C.string_value(x) for x in C.walk(v) if x.get('kind') == 'StringLiteral' and C.string_value(x) is not None]
+        return []
+
+    for c in C.calls(tu.body(f)):
         a = C.call_args(c)
-        if len(a) == 2:
+        cn = C.callee(c)
+        if cn in ('strcmp', 'g_str_equal', 'g_strcmp0', 'g_ascii_strcasecmp') and len(a) == 2:
             for x, y in ((a[0], a[1]), (a[1], a[0])):
-                if C.declref(x) == var and C.string_value(y) is not None:
-                    v = C.string_value(y)
-                    out.add(v.lower() if C.callee(c) == 'g_ascii_strcasecmp' else v)
+                if C.declref(x) == var:
+                    vals = [C.string_value(y)] if C.string_value(y) is not None else table_strings(y)
+                    for v in vals:
+                        out.add(v.lower() if cn == 'g_ascii_strcasecmp' else v)
+        elif cn in tu.functions and depth > 0 and cn != f.get('name'):
+            g = tu.functions[cn]
+            ps = [p_['name'] for p_ in tu.params(g)]
+            for i, x in enumerate(a):
+                if C.declref(x) == var and i < len(ps):
+                    out |= strcmp_literals(tu, g, ps[i], depth - 1)
     return out
 
 
